@@ -593,6 +593,7 @@ pub fn run(tier: Tier) -> i32 {
             acc.violation("nondeterministic-across-threads", "canonical bytes differ between threads", || json!({"kind": "threads"}));
         }
     }
+    crate::envprobe::judge(&mut acc, "C10:", &mut c.extra);
     c.acc = acc;
     c.rule = format!(
         "(a) every scalar of the tier's set as a one-character string, as an object key next to another member, and as a key next to its successor; (a'') strings of 24 lengths 15..70001 with one of 7 escaping-relevant characters at the start / middle / end / every second position, as string and as key; for every value except single scalars also Json::to_writer and JsonPretty::canonicalize (same bytes) and a preceding canonicalize_for_signing call on the same thread (no influence); (b) value grammar: 13 leaves, arrays <= 2 and objects <= 2 (7 keys incl. U+FFFF / U+10000) over them, nested to depth {depth_done} over reduced child sets; (c) all 343 key triples; (d) integers 0, +-2^k, +-2^k+-1 (k<=64), 10^k, 10^k-1, extremes and 15 non-integer spellings in 5 contexts; (e) all spellings (6 whitespace fillers x 2 member orders x 5 escape modes x 2 channels) of {} values. distinct_nontrivial counts scalars + grammar values + non-integer cases",
